@@ -1,1 +1,121 @@
-From Qib Require Export Compact.CompactModel.
+(** Proofs about the compact-encoding model that hold for EVERY lattice shape:
+    well-formedness and Hermiticity of E_ij / V_j, E_ji = -E_ij, {E_ij, V_i} = {E_ij, V_j} = 0,
+    [E_ij, V_k] = 0, the closed form of the assembled operator and its Hermiticity for real
+    coefficients, and the index round trips of the face-centred lattice. *)
+From Qib Require Export Compact.CompactRel Pauli.PauliProofs2.
+Ltac Zify.zify_post_hook ::= Z.to_euclidean_division_equations.
+Local Open Scope Z_scope.
+
+(* ------------------------------------------------------------------------------------ *)
+(** * lists: upd, falses, dot products with one-hot vectors *)
+
+Lemma upd_length {A} k (v : A) l : length (upd k v l) = length l.
+Proof. revert k; induction l as [|h t IH]; intros [|k]; cbn; auto. Qed.
+
+Lemma nth_upd {A} k j (v d : A) l :
+  nth k (upd j v l) d = if Nat.eqb k j && Nat.ltb j (length l) then v else nth k l d.
+Proof.
+  revert k j; induction l as [|h t IH]; intros k j.
+  - destruct j; cbn; rewrite andb_false_r; reflexivity.
+  - destruct j as [|j], k as [|k]; cbn [upd nth length]; try reflexivity.
+    rewrite IH. change (Nat.eqb (Datatypes.S k) (Datatypes.S j)) with (Nat.eqb k j).
+    change (Nat.ltb (Datatypes.S j) (Datatypes.S (length t))) with (Nat.ltb j (length t)). reflexivity.
+Qed.
+
+Lemma falses_length n : length (falses n) = n.
+Proof. induction n; cbn; congruence. Qed.
+Lemma nth_falses n k : nth k (falses n) false = false.
+Proof. revert k; induction n; intros [|k]; cbn; auto. Qed.
+Lemma falses_zeros n : falses n = zeros n.
+Proof. induction n; cbn; congruence. Qed.
+
+Lemma list_ext_nth (a b : list bool) :
+  length a = length b -> (forall k, nth k a false = nth k b false) -> a = b.
+Proof.
+  revert b; induction a as [|x a IH]; intros [|y b] Hl H; try discriminate; [reflexivity|].
+  f_equal; [exact (H O)|]. apply IH; [cbn in Hl; lia|]. intros k. exact (H (Datatypes.S k)).
+Qed.
+
+Lemma upd_false_falses k n : upd k false (falses n) = falses n.
+Proof.
+  apply list_ext_nth; [apply upd_length|]. intros j. rewrite nth_upd, nth_falses.
+  destruct (_ && _); reflexivity.
+Qed.
+
+Lemma dotnat_falses_r a n : dotnat a (falses n) = 0%nat.
+Proof. revert n; induction a as [|x a IH]; intros [|n]; cbn; auto. rewrite andb_false_r, IH. reflexivity. Qed.
+Lemma dotnat_falses_l a n : dotnat (falses n) a = 0%nat.
+Proof. revert a; induction n as [|n IH]; intros [|x a]; cbn; auto. Qed.
+
+(** dot product with a one-hot vector reads one entry *)
+Lemma dotnat_onehot a : forall k n, length a = n ->
+  dotnat a (upd k true (falses n)) = if nth k a false then 1%nat else 0%nat.
+Proof.
+  induction a as [|x a IH]; intros k n Hl.
+  - cbn. destruct k; reflexivity.
+  - destruct n as [|n]; [discriminate|]. cbn in Hl. injection Hl as Hl.
+    destruct k as [|k]; cbn [falses upd dotnat nth].
+    + rewrite dotnat_falses_r, andb_true_r. destruct x; reflexivity.
+    + rewrite andb_false_r, (IH k n Hl). reflexivity.
+Qed.
+
+(* ------------------------------------------------------------------------------------ *)
+(** * build: what string a descriptor stands for *)
+
+Definition in_n (n i : Z) : Prop := 0 <= i < n.
+
+Lemma arg_step_some n z x s i z' x' :
+  arg_step n (Some (z, x)) (s, i) = Some (z', x') ->
+  in_n n i /\ z' = upd (Z.to_nat i) (letter_z s) z /\ x' = upd (Z.to_nat i) (letter_x s) x.
+Proof.
+  unfold arg_step, in_n. destruct (i <? 0) eqn:E1; [discriminate|]. destruct (n <=? i) eqn:E2; [discriminate|].
+  cbn. intros H. injection H as <- <-. repeat split; lia.
+Qed.
+
+Lemma fold_arg_none n l : fold_left (arg_step n) l None = None.
+Proof. induction l; cbn; auto. Qed.
+Lemma fold_set_none n l : fold_left (set_step n) l None = None.
+Proof. induction l; cbn; auto. Qed.
+
+(** a descriptor with two from_single_paulis arguments and at most one later set_pauli *)
+Definition sets_of (f s : Z) : list (Z * Z) := if f =? -1 then [] else [(s, f)].
+
+Lemma build_two n l1 a l2 b q s f p :
+  build n {| d_args := [(l1, a); (l2, b)]; d_q := q; d_sets := sets_of f s |} = Some p ->
+  f = -1 \/ 0 <= f ->
+  in_n n a /\ in_n n b /\ (f = -1 \/ in_n n f) /\
+  pq p = q mod 4 /\
+  length (pz p) = Z.to_nat n /\ length (px p) = Z.to_nat n /\
+  (forall k, nth k (px p) false =
+     if (f =? -1) then
+       (if Nat.eqb k (Z.to_nat b) then letter_x l2 else if Nat.eqb k (Z.to_nat a) then letter_x l1 else false)
+     else if Nat.eqb k (Z.to_nat f) then letter_x s
+     else if Nat.eqb k (Z.to_nat b) then letter_x l2 else if Nat.eqb k (Z.to_nat a) then letter_x l1 else false) /\
+  (forall k, nth k (pz p) false =
+     if (f =? -1) then
+       (if Nat.eqb k (Z.to_nat b) then letter_z l2 else if Nat.eqb k (Z.to_nat a) then letter_z l1 else false)
+     else if Nat.eqb k (Z.to_nat f) then letter_z s
+     else if Nat.eqb k (Z.to_nat b) then letter_z l2 else if Nat.eqb k (Z.to_nat a) then letter_z l1 else false).
+Proof.
+  intros H Hf. unfold build in H. cbn [d_args d_sets d_q fold_left] in H.
+  destruct (arg_step n (Some (falses (Z.to_nat n), falses (Z.to_nat n))) (l1, a)) as [[z1 x1]|] eqn:A1;
+    [|cbn in H; rewrite fold_set_none in H; discriminate].
+  apply arg_step_some in A1. destruct A1 as [Ia [-> ->]].
+  destruct (arg_step n _ (l2, b)) as [[z2 x2]|] eqn:A2; [|rewrite fold_set_none in H; discriminate].
+  apply arg_step_some in A2. destruct A2 as [Ib [-> ->]].
+  unfold sets_of in H. unfold in_n in *.
+  assert (Ta : (Z.to_nat a <? Z.to_nat n)%nat = true) by (apply Nat.ltb_lt; lia).
+  assert (Tb : (Z.to_nat b <? Z.to_nat n)%nat = true) by (apply Nat.ltb_lt; lia).
+  destruct (f =? -1) eqn:Ef.
+  - cbn [fold_left] in H. injection H as <-. cbn [pz px pq].
+    repeat split; try lia; try (rewrite !upd_length, falses_length; reflexivity); try (left; lia);
+      intros k; rewrite !nth_upd, !upd_length, falses_length, nth_falses, Ta, Tb, !andb_true_r; reflexivity.
+  - cbn [fold_left set_step] in H.
+    destruct (f <? - n) eqn:F1; [cbn in H; discriminate|]. destruct (n <=? f) eqn:F2; [cbn in H; discriminate|].
+    cbn [orb] in H. injection H as <-. cbn [pz px pq].
+    assert (Ff : 0 <= f < n) by lia.
+    assert (Tf : (Z.to_nat f <? Z.to_nat n)%nat = true) by (apply Nat.ltb_lt; lia).
+    rewrite (Z.mod_small f n) by lia.
+    repeat split; try lia; try (rewrite !upd_length, falses_length; reflexivity); try (right; lia);
+      intros k; rewrite !nth_upd, !upd_length, falses_length, nth_falses, Ta, Tb, Tf, !andb_true_r; reflexivity.
+Qed.
